@@ -25,7 +25,7 @@ theorem lookup_tmAcc (x : Nat) (ty : VType) : ∀ (eqs : List Eqn) (acc : List (
       rcases hl : (typeWrites e).lookup x with _ | ty'
       · rw [hl] at h'; exact .inr (by simpa using h')
       · rw [hl] at h'
-        simp only [Option.or_some, Option.some.injEq] at h'
+        have h' : ty' = ty := by simpa using h'
         subst h'
         exact .inl ⟨e, List.mem_cons_self .., mem_of_lookup _ _ _ hl⟩
 
@@ -94,5 +94,130 @@ theorem tyOf_state_or_free {eqs : List Eqn} {e : Eqn} (he : e ∈ eqs) {s t o : 
     · exact .inr hty
     · exact .inl hty
   | other => simp [typeWrites, hl'] at hw
+
+-- ------------------------------------------------------------------------------------------------ nodes of the graph
+/-- a node added for a reference or for the variables of an ODE: a variable without equation, typed STATE or FREE -/
+def BareOK (tm : List (Nat × VType)) (x : GNode) : Prop :=
+  ∃ v, x = ⟨.var v, none, tyOf tm v⟩ ∧ (tyOf tm v = some .state ∨ tyOf tm v = some .free)
+
+/-- `g'` has the nodes of `g` followed by bare STATE/FREE variable nodes -/
+def Ext (tm : List (Nat × VType)) (g g' : Graph) : Prop :=
+  ∃ extra, g'.nodes = g.nodes ++ extra ∧ ∀ x ∈ extra, BareOK tm x
+
+theorem Ext.refl (tm : List (Nat × VType)) (g : Graph) : Ext tm g g := ⟨[], by simp, fun _ h => by cases h⟩
+
+theorem Ext.trans {tm : List (Nat × VType)} {g g' g'' : Graph} (h1 : Ext tm g g') (h2 : Ext tm g' g'') : Ext tm g g'' := by
+  obtain ⟨x1, e1, b1⟩ := h1
+  obtain ⟨x2, e2, b2⟩ := h2
+  refine ⟨x1 ++ x2, by rw [e2, e1, List.append_assoc], fun x hx => ?_⟩
+  rcases List.mem_append.mp hx with h | h
+  · exact b1 x h
+  · exact b2 x h
+
+theorem Ext.has {tm : List (Nat × VType)} {g g' : Graph} (h : Ext tm g g') {n : Node} (hn : hasNode g n = true) :
+    hasNode g' n = true := by
+  obtain ⟨x, e, _⟩ := h
+  unfold hasNode at hn ⊢
+  rw [e, List.any_append, hn]; rfl
+
+/-- the reference can be given a node: it is a variable typed STATE or FREE -/
+def bareRef (tm : List (Nat × VType)) (r : Node) : Prop :=
+  ∃ v, r = .var v ∧ (tyOf tm v = some .state ∨ tyOf tm v = some .free)
+
+theorem ext_addBareNode (tm : List (Nat × VType)) (g : Graph) (n : Node) (h : hasNode g n = true ∨ bareRef tm n) :
+    Ext tm g (addBareNode tm g n) := by
+  unfold addBareNode
+  by_cases hn : hasNode g n = true
+  · rw [if_pos hn]; exact Ext.refl tm g
+  · rw [if_neg hn]
+    rcases h with h | ⟨v, rfl, hv⟩
+    · exact absurd h hn
+    · exact ⟨[⟨.var v, none, nodeType tm (.var v)⟩], rfl, fun x hx => by
+        simp only [List.mem_singleton] at hx
+        exact ⟨v, hx, hv⟩⟩
+
+theorem ext_refs_fold (tm : List (Nat × VType)) (l : Node) : ∀ (refs : List Node) (g : Graph),
+    (∀ r ∈ refs, hasNode g r = true ∨ bareRef tm r) →
+    Ext tm g (refs.foldl (fun g r => { addBareNode tm g r with edges := (addBareNode tm g r).edges ++ [(r, l)] }) g)
+  | [], g, _ => Ext.refl tm g
+  | r :: rs, g, h => by
+    simp only [List.foldl_cons]
+    have h1 : Ext tm g { addBareNode tm g r with edges := (addBareNode tm g r).edges ++ [(r, l)] } := by
+      obtain ⟨x, e, b⟩ := ext_addBareNode tm g r (h r (List.mem_cons_self ..))
+      exact ⟨x, e, b⟩
+    refine h1.trans (ext_refs_fold tm l rs _ (fun r' hr' => ?_))
+    rcases h r' (List.mem_cons_of_mem _ hr') with h' | h'
+    · exact .inl (h1.has h')
+    · exact .inr h'
+
+theorem not_badRef {tm : List (Nat × VType)} {g : Graph} {r : Node} (h : badRef tm g r = false) :
+    hasNode g r = true ∨ bareRef tm r := by
+  unfold badRef at h
+  by_cases hn : hasNode g r = true
+  · exact .inl hn
+  · right
+    have hn' : hasNode g r = false := by simpa using hn
+    rw [hn'] at h
+    cases r with
+    | deriv s t => simp at h
+    | var v =>
+      simp only [Bool.not_false, Bool.true_and, Bool.not_eq_false', Bool.or_eq_true, beq_iff_eq] at h
+      exact ⟨v, rfl, h⟩
+
+/-- one equation of the edge loop only appends bare STATE/FREE variable nodes -/
+theorem ext_addEdges {eqs : List Eqn} {g g' : Graph} {e : Eqn} (he : e ∈ eqs)
+    (hlhs : ∀ e' ∈ eqs, ∀ n, lhsNode e'.lhs = some n → hasNode g n = true)
+    (h : addEdges (typeMap eqs) g e = .ok g') : Ext (typeMap eqs) g g' := by
+  unfold addEdges at h
+  rcases hl : lhsNode e.lhs with _ | l
+  · rw [hl] at h; cases h
+  · rw [hl] at h
+    dsimp only at h
+    by_cases hbad : (!(e.refs.filter (badRef (typeMap eqs) g)).isEmpty) = true
+    · rw [if_pos hbad] at h; cases h
+    · rw [if_neg hbad] at h
+      have hempty : e.refs.filter (badRef (typeMap eqs) g) = [] := by simpa using hbad
+      have hrefs : ∀ r ∈ e.refs, hasNode g r = true ∨ bareRef (typeMap eqs) r := fun r hr => by
+        apply not_badRef
+        by_cases hb : badRef (typeMap eqs) g r = true
+        · have : r ∈ e.refs.filter (badRef (typeMap eqs) g) := List.mem_filter.mpr ⟨hr, hb⟩
+          rw [hempty] at this; cases this
+        · simpa using hb
+      have h1 := ext_refs_fold (typeMap eqs) l e.refs g hrefs
+      cases hlhs' : e.lhs with
+      | var v => rw [hlhs'] at h; cases h; exact h1
+      | other => rw [hlhs'] at h; cases h; exact h1
+      | deriv s t o =>
+        rw [hlhs'] at h
+        dsimp only at h
+        cases h
+        have hvar : ∀ (x : Nat) (gx : Graph), (x = s ∨ x = t) → Ext (typeMap eqs) g gx →
+            hasNode gx (.var x) = true ∨ bareRef (typeMap eqs) (.var x) := fun x gx hx hgx => by
+          by_cases hno : ∀ e' ∈ eqs, e'.lhs ≠ .var x
+          · exact .inr ⟨x, rfl, tyOf_state_or_free he hlhs' hx hno⟩
+          · left
+            have : ∃ e' ∈ eqs, e'.lhs = .var x := by
+              apply Classical.byContradiction
+              intro hc
+              exact hno (fun e' he' heq => hc ⟨e', he', heq⟩)
+            obtain ⟨e', he', heq⟩ := this
+            exact hgx.has (hlhs e' he' (.var x) (by rw [heq]; rfl))
+        have h2 := ext_addBareNode (typeMap eqs) _ (.var t) (hvar t _ (.inr rfl) h1)
+        have h3 := ext_addBareNode (typeMap eqs) _ (.var s) (hvar s _ (.inl rfl) (h1.trans h2))
+        exact (h1.trans h2).trans h3
+
+theorem ext_addAllEdges {eqs : List Eqn} : ∀ (es : List Eqn) (g g' : Graph), (∀ e ∈ es, e ∈ eqs) →
+    (∀ e' ∈ eqs, ∀ n, lhsNode e'.lhs = some n → hasNode g n = true) →
+    addAllEdges (typeMap eqs) g es = .ok g' → Ext (typeMap eqs) g g'
+  | [], g, g', _, _, h => by simp only [addAllEdges] at h; cases h; exact Ext.refl _ g
+  | e :: es, g, g', hsub, hlhs, h => by
+    simp only [addAllEdges] at h
+    rcases h1 : addEdges (typeMap eqs) g e with err | g1
+    · rw [h1] at h; cases h
+    · rw [h1] at h
+      dsimp only at h
+      have e1 := ext_addEdges (hsub e (List.mem_cons_self ..)) hlhs h1
+      exact e1.trans (ext_addAllEdges es g1 g' (fun x hx => hsub x (List.mem_cons_of_mem _ hx))
+        (fun e' he' n hn => e1.has (hlhs e' he' n hn)) h)
 
 end Model
